@@ -224,6 +224,58 @@ def as_poly(v):
     return Poly.atom(str(v))
 
 
+# positional parameter roles of the member signatures that the library fixes by contract (Encoding<T> members, the table
+# encoder's helpers, the RPC sender/receiver/bindings); parameters beyond the listed positions keep their own names
+ENCODING_PARAMS = {
+    'WritePayload': ['prefix', 'value', 'writer'], 'ReadPayload': ['prefix', 'value', 'reader'],
+    'Write': ['value', 'writer'], 'Read': ['value', 'reader'], 'Prefix': ['value'], 'Match': ['prefix'], 'Size': ['value'],
+    'ReadEntries': ['value', 'count', 'reader'], 'ReadEntryForId': ['value', 'id', 'reader'],
+    'WriteEntry': ['entry', 'writer'], 'ReadEntry': ['entry', 'reader'], 'SkipEntry': ['reader'],
+    'WriteEntries': ['value', 'writer'], 'ClearEntries': ['value'], 'ActiveEntryCount': ['value'],
+}
+CLASS_PARAMS = {
+    ('nop::SimpleMethodSender', 'SendMethod'): ['method_selector', 'return_value', 'args'],
+    ('nop::SimpleMethodSender', 'GetReturn'): ['return_status'],
+    ('nop::InterfaceBindings', 'operator()'): ['receiver'],
+    ('nop::InterfaceBindings', 'DispatchTable'): ['receiver', 'method_selector'],
+    ('nop::InterfaceBindings', 'MatchTable'): ['method_selector'],
+}
+
+
+def canonical_params(fn):
+    names = None
+    rect = fn.get('rect') or ''
+    if rect in ('nop::Encoding', 'nop::EncodingIO'):
+        names = ENCODING_PARAMS.get(fn['n'])
+        if fn['n'] == 'Size' and fn['params'] and 'Entry<' in fn['params'][0].get('t', ''):
+            names = ['entry']
+    elif (rect, fn['n']) in CLASS_PARAMS:
+        names = CLASS_PARAMS[(rect, fn['n'])]
+    elif fn['n'] in ('Dispatch', 'Invoke') and 'Helper<' in (fn.get('rec') or ''):
+        names = {'Dispatch': ['receiver'], 'Invoke': ['sender', 'return_value']}[fn['n']]
+    if not names:
+        return {}
+    out = {}
+    for p, n in zip(fn['params'], names):
+        if 'id' in p:
+            out[p['id']] = n
+    return out
+
+
+def canonical_fields(db, fn):
+    """the RPC sender/receiver hold one serializer and one deserializer: named by their type, not their spelling"""
+    if fn.get('rect') not in ('nop::SimpleMethodSender', 'nop::SimpleMethodReceiver'):
+        return {}
+    out = {}
+    for f in db.records.get(fn.get('rec'), {}).get('fields', []):
+        t = f['t'].replace('const ', '')
+        if t.startswith('nop::Serializer<'):
+            out[f['n']] = 'serializer_'
+        elif t.startswith('nop::Deserializer<'):
+            out[f['n']] = 'deserializer_'
+    return out
+
+
 class Exec:
     def __init__(self, db, fn, inline=None, this_name='this', depth=0, max_depth=12):
         self.db = db
@@ -233,6 +285,10 @@ class Exec:
         self.max_depth = max_depth
         self.finished = []
         self.npaths = 0
+        # parameters of the analysed (top-level) function are named by their ROLE in the library's fixed member signatures,
+        # not by their spelling in the source, so a renamed parameter yields the same atoms
+        self.canon = canonical_params(fn) if depth == 0 else {}
+        self.fcanon = canonical_fields(db, fn)
 
     # ---- expressions ------------------------------------------------------
     def ev(self, e, p):
@@ -254,7 +310,9 @@ class Exec:
             if e.get('dk') in ('local', 'param'):
                 if e['id'] in p.env:
                     return p.env[e['id']]
-                return Poly.atom(('p:' if e['dk'] == 'param' else 'l:') + e['n'])
+                if e['dk'] == 'param':
+                    return Poly.atom('p:' + self.canon.get(e['id'], e['n']))
+                return Poly.atom('l:' + e['n'])
             if e.get('dk') == 'enum':
                 return Opaque('enum:' + e.get('q', e['n']))
             return Opaque('ref:' + e.get('q', e['n']))
@@ -263,7 +321,7 @@ class Exec:
         if k == 'mem':
             b = ir.strip(e['b'])
             if b['k'] == 'this' or (b['k'] == 'un' and b['op'] == '*' and ir.strip(b['e'])['k'] == 'this'):
-                return p.fields.get(e['n'], Poly.atom('f:' + e['n']))
+                return p.fields.get(e['n'], Poly.atom('f:' + self.fcanon.get(e['n'], e['n'])))
             base = self.ev(b, p)
             return Opaque('%s.%s' % (self.txt(base), e['n']))
         if k in ('icast', 'cast'):
